@@ -17,7 +17,7 @@ OPS = ["step", "recv:e", "cancel", "reset"]
 
 def build_api_campaign(tier, sd):
     cp = campaign.Campaign("api", tier)
-    names = ["d_basic", "d_toplevel_final", "d_raise_order", "d_data", "d_history_shallow", "d_parallel_three_final"]
+    names = ["d_basic", "d_toplevel_final", "d_raise_order", "d_data", "d_history_shallow", "d_parallel_three_final", "d_error_in_if", "d_error_exit_nested"]
     charts = [c for c in directed.charts() if c.name in names]
     maxmid = 2 if tier == "quick" else 3
     for c in charts:
